@@ -73,6 +73,17 @@ impl MinimalInputBackend {
         }
     }
 
+    /// Exposes [`Self::read_program_from`] to an external simulator (feature `verif-hooks`).
+    #[cfg(feature = "verif-hooks")]
+    pub fn verif_read_program_from<R: BufRead, W: Write>(
+        shell_ref: &crate::ShellRef<impl brush_core::ShellExtensions>,
+        prompt: Option<&InteractivePrompt>,
+        reader: &mut R,
+        writer: &mut W,
+    ) -> Result<ReadResult, ShellError> {
+        Self::read_program_from(shell_ref, prompt, reader, writer)
+    }
+
     /// Reads a single line, returning `None` at end of input.
     fn read_input_line<R: BufRead>(reader: &mut R) -> Result<Option<String>, ShellError> {
         let mut input = String::new();
